@@ -123,6 +123,11 @@ func (k Key) MatchString(tgt string) bool {
 	vals := strings.Split(tgt, "+")
 	mods := vals[0 : len(vals)-1]
 	key := vals[len(vals)-1]
+	if key == "" && len(vals) > 2 {
+		// "Ctrl++": the key is '+' itself
+		key = "+"
+		mods = vals[0 : len(vals)-2]
+	}
 
 	var mask ModifierMask
 	for _, m := range mods {
